@@ -19,6 +19,7 @@
 (* Programs are JSON documents (harness/progen.py): tasks of kind leaf     *)
 (* (arg + add), fail (raises) or calls (lazy sum of child calls whose      *)
 (* arguments are constants, the parent's argument, or an earlier sibling's *)
+(* result; kind noexec names an executor that does not exist),             *)
 (* result), resource units per task, a plan of runs and edits.  Jobs are   *)
 (* named by creation path (<<>> root, <<1,2>> second job created under the *)
 (* first job created under the root), which the harness computes the same  *)
@@ -174,6 +175,10 @@ Exec(j) ==
   ELSE IF CacheAllowed /\ k \in evalTab THEN                          \* HitSingle
        /\ Served(J, j, "doneq", "single", << [ty |-> "done", j |-> j] >>, NoTwin)
        /\ UNCHANGED <<running, pend, used, cse, wf, rootval, submitted, evalTab>>
+  ELSE IF mode = "dry" /\ KindOf(t) = "noexec" THEN                   \* dry run, unknown executor: rejected
+       /\ jobs' = [J EXCEPT ![j].ph = "doneq"]                        \* (nothing was consumed)
+       /\ evq' = Append(Tail(evq), [ty |-> "reject", j |-> j])
+       /\ UNCHANGED <<running, pend, waiting, used, cse, wf, rootval, submitted, evalTab>>
   ELSE IF mode = "dry" THEN                                           \* DryStop
        /\ jobs' = [J EXCEPT ![j].ph = "drystop"]
        /\ evq' = Tail(evq)
@@ -182,6 +187,11 @@ Exec(j) ==
        /\ jobs' = [J EXCEPT ![j].ph = "waiting", ![j].nom = FALSE] /\ waiting' = Append(waiting, j)
        /\ evq' = Tail(evq)
        /\ UNCHANGED <<running, pend, used, cse, wf, rootval, submitted, evalTab>>
+  ELSE IF KindOf(t) = "noexec" THEN                                   \* RejectNoExecutor: the units were
+       /\ jobs' = [J EXCEPT ![j].ph = "doneq", ![j].held = TRUE]      \* consumed, the job is rejected
+       /\ used' = [r \in Res |-> used[r] + Units(t, r)]               \* before reaching an executor
+       /\ evq' = Append(Tail(evq), [ty |-> "reject", j |-> j])
+       /\ UNCHANGED <<running, pend, waiting, cse, wf, rootval, submitted, evalTab>>
   ELSE                                                                \* Submit
        /\ jobs' = [J EXCEPT ![j].ph = "running", ![j].held = TRUE]
        /\ used' = [r \in Res |-> used[r] + Units(t, r)]
@@ -379,7 +389,7 @@ Terminates == []<>(RunOver)
 \* C28: a dry run submits nothing
 DrySubmitsNothing == mode = "dry" => (submitted = <<>> /\ running = {})
 \* C12: errors are never in the single-reduction cache
-NoErrorCached == \A k \in evalTab : Tasks[k[1]].vers[k[2]].kind # "fail"
+NoErrorCached == \A k \in evalTab : Tasks[k[1]].vers[k[2]].kind \notin {"fail", "noexec"}
 
 (* reference semantics (big-step), independent of scheduling: Val(t, arg) under the current versions *)
 RECURSIVE RefVal(_, _, _)
@@ -387,7 +397,7 @@ RECURSIVE RefKids(_, _, _, _, _)
 \* returns <<ok, value>>; children evaluated left to right, a failing child fails the call
 RefVal(t, arg, vr) ==
   LET d == Tasks[t].vers[vr[t]] IN
-  IF d.kind = "fail" THEN <<FALSE, 0>>
+  IF d.kind \in {"fail", "noexec"} THEN <<FALSE, 0>>
   ELSE IF d.kind = "leaf" \/ Len(d.children) = 0 THEN <<TRUE, arg + d.add>>
   ELSE RefKids(t, arg, vr, 1, <<>>)
 RefKids(t, arg, vr, i, got) ==
